@@ -17,6 +17,9 @@ CHECKS = {
 CHECKS["C17"] = dict(cat="other", tech="SMT (z3) over the traced IR of Transform.forward/inverse: bounds, monotonicity, both round trips (split by clip regime), DAG equality for routing",
    text="For Sigmoid, Softplus, NegSoftplus, Affine and four chains z3 proves on the traced IR, for all x in [-1e6,1e6] and all hyper-parameters in [-1000,1000], that forward is defined, within the declared bounds and monotone and that both round trips are identities wherever save_exp's clip is inactive; the clip-active half is the recorded defect F11. Masked/Custom/ParamTransform routing (also under jit) is decided by DAG equality.",
    note="exact real arithmetic; exp/log/log1p uninterpreted with inverse/monotonicity axioms; Affine's concrete scale!=0 guard bypassed to make scale symbolic", ref="6 C17")
+CHECKS["C01"] = dict(cat="other", tech="SMT (z3, QF_NRA with guarded division flattening) over the traced IR of init_fn+step_fn per enumerated structure: conductance lemmas + scheme-row identities; spsolve as contract stub; Stone kernels by kernel lemmas",
+   text="Bounded symbolic verification: for every tree shape with <=3 branches (<=4 thorough) x compartment counts x solver x backend, plus branches, a compartment and small networks, z3 proves for ALL positive parameters, voltages, stimuli and dt that each traced axial conductance equals the physical formula of its edge and that the traced new voltages satisfy every row of an independently assembled discretised cable equation with Kirchhoff branch points. Structure is enumerated (the bound); all floating-point quantities are solver variables. Non-unsat verdicts are replayed on the real API against a dense numpy solve.",
+   note="exact real arithmetic; spsolve replaced by its documented contract (CSR, A y = b) with A shown weakly chained diagonally dominant; tridiax Stone kernels replaced by serial recurrences justified by kernel lemmas (n<=4/8); uniqueness via diagonal dominance is trusted mathematics", ref="6 C01")
 NA = {}
 checks = []
 for pid, c in CHECKS.items():
